@@ -31,7 +31,11 @@ type Header struct {
 	Padding        int      `json:"padding,omitempty"`
 	DiskCheck      bool     `json:"disk_check,omitempty"`
 	DynamicMembers bool     `json:"dynamic_members,omitempty"`
-	Single         bool     `json:"single_bootstrap,omitempty"` // bootstrap one node, add the others through AddServer
+	// KeepDown: how many of the nodes that are down when the faults stop stay down in the fault-free
+	// period (the most recently stopped first), as far as a majority of the voters of every configuration
+	// in use still runs (C15 only asks for a running majority)
+	KeepDown int  `json:"keep_down,omitempty"`
+	Single   bool `json:"single_bootstrap,omitempty"` // bootstrap one node, add the others through AddServer
 }
 
 // Instance is one incarnation of a node: one raft.Raft value with its state
@@ -76,6 +80,7 @@ type Node struct {
 	crashInfo    string // description of the last storage-boundary crash
 	crashMid     bool
 	everStarted  bool
+	downSeq      atomic.Int64 // order in which nodes went down (0 = never)
 }
 
 // Current returns the node's current instance (safe for concurrent readers).
@@ -334,6 +339,7 @@ func (c *Cluster) StopNode(id string) {
 	}
 	in := n.cur
 	in.stopping.Store(true)
+	n.downSeq.Store(downCounter.Add(1))
 	c.rec.Add(Event{Kind: "fault", Node: id, Inc: in.inc, Fault: &FaultInfo{What: "stop"}})
 	c.goTracked(func() {
 		in.raft.Stop()
@@ -344,9 +350,12 @@ func (c *Cluster) StopNode(id string) {
 
 // die turns the instance into a zombie: the node's directory as it is at this
 // instant becomes the disk the next incarnation starts from.
+var downCounter atomic.Int64
+
 func (in *Instance) die(why, op, ctx string, after bool) {
 	n := in.node
 	c := n.c
+	n.downSeq.Store(downCounter.Add(1))
 	in.opmu.Lock()
 	defer in.opmu.Unlock()
 	if in.dead.Load() {
